@@ -185,6 +185,31 @@ def steps(rep):
         rep.add(f'C19.LiteralTypeHint._is_subhint.post.sound_vs_literal.path{i}', r.status, time=r.time, backend=r.backend, reason=r.reason,
                 where='Literal[a...] <= Literal[b...] only if every object equal to (and of the type of) some a is equal to (and of the type of) some b; any number of members')
     if not outs: rep.error('C19.LiteralTypeHint: no path')
+    # ---- AnnotatedTypeHint._is_subhint_branch: meaning = metahint AND validators; equal metadata tuples validate the same objects
+    import beartype.door._cls.pep.doorpep593 as amod
+    fobj, node, _ = funcmode.load('beartype/door/_cls/pep/doorpep593.py', 'AnnotatedTypeHint._is_subhint_branch')
+    isann = z3.Bool('branch_is_annotated'); VAL = z3.Function('validators_hold', M.Obj, M.Obj, z3.BoolSort())
+    def m_isinst_ann(ex_, s, f, a, kw, w):
+        if isinstance(a[0], VObj) and a[0].t.eq(BR) and isinstance(a[1], VPy) and a[1].o is amod.AnnotatedTypeHint: return [(s, VBool(isann))]
+        return Exec.b_isinstance(ex_, s, a, kw, w)
+    def m_suppress(ex_, s, f, a, kw, w): return [(s, VObj(z3.Const('suppress_cm', M.Obj)))]
+    ex = Exec(uni, dict(amod.__dict__), call_model={isinstance: m_isinst_ann, '.is_subhint': m_le, amod.suppress: m_suppress}, name='annotated'); ex.fields_mode = True; ex.method_names = {'is_subhint'}
+    MHS, MHB = z3.Select(F('_metahint_wrapper'), SELF), z3.Select(F('_metahint_wrapper'), BR); MDS, MDB = z3.Select(F('_metadata'), SELF), z3.Select(F('_metadata'), BR)
+    pre = (M.inst(MDS, uni.const(tuple)), M.inst(MDB, uni.const(tuple)))
+    try: outs = ex.run_function(node, St((), pre), (VObj(SELF), VObj(BR)), {}, fobj)
+    except symx.Unsupported as e: rep.error(f'C19.AnnotatedTypeHint: unsupported: {e}'); outs = []
+    p_, q_ = z3.Consts('md_p md_q', M.Obj)
+    cong = z3.ForAll([p_, q_, x_], z3.Implies(z3.And(M.eq(p_, q_), VAL(p_, x_)), VAL(q_, x_)))      # == on metadata tuples: the same validators in the same order
+    pr = discharge.Prover(uni.axioms() + [IH, cong])
+    for ob in ex.obls:
+        r = pr.prove(list(ob.pc), ob.goal); rep.add(f'C19.AnnotatedTypeHint.{ob.kind}#{ob.name.rsplit(".", 1)[-1]}', r.status, time=r.time, backend=r.backend, where=ob.where)
+    mean_self = z3.And(MEAN(MHS, X), VAL(MDS, X))
+    mean_br = z3.If(isann, z3.And(MEAN(MHB, X), VAL(MDB, X)), MEAN(BR, X))
+    for i, (s, v) in enumerate(outs):
+        r = pr.prove(list(s.pc) + [ex.truth(v), mean_self], mean_br)
+        rep.add(f'C19.AnnotatedTypeHint._is_subhint_branch.post.sound.path{i}', r.status, time=r.time, backend=r.backend, reason=r.reason,
+                where='True => every object satisfying the metahint and the validators of self satisfies the branch (its metahint and equal validators, or the branch itself if it is not Annotated)')
+    if not outs: rep.error('C19.AnnotatedTypeHint: no path')
     # ---- TupleFixedTypeHint._is_subhint_branch vs another fixed tuple, per arity
     import beartype.door._cls.pep.pep484585.doorpep484585tuple as tmod
     fobj, node, _ = funcmode.load('beartype/door/_cls/pep/pep484585/doorpep484585tuple.py', 'TupleFixedTypeHint._is_subhint_branch')
